@@ -22,9 +22,8 @@ theorem c09_valid_or_raises (T : Table) (env : Env) (t : TypeArg) (kw : Kwargs) 
     | .ok o => env.valid o = true
     | .error e => e.isValueError = true := by
   have h := factory_cases T env true true t kw oid
-  rcases h with ⟨hr, _⟩ | ⟨_, he⟩ | ⟨_, _, k, _, _, he⟩ | ⟨_, _, _, hg, he⟩ | ⟨_, _, _, hres⟩
+  rcases h with ⟨hr, _⟩ | ⟨_, he⟩ | ⟨_, _, k, _, _, he⟩ | ⟨_, _, _, hres⟩
   · exact absurd hr hcls
-  · rw [he]; rfl
   · rw [he]; rfl
   · rw [he]; rfl
   · rw [hres]
@@ -53,18 +52,17 @@ theorem c09_typo (T : Table) (env : Env) (t : TypeArg) (kw : Kwargs) (oid : Nat)
     simp only [Bool.not_eq_true, Bool.not_eq_false', List.contains_eq_mem, decide_eq_true_eq] at this
     exact hnm this
   rcases factory_cases T env enabled flag t kw oid with ⟨hr, _⟩ | ⟨_, he⟩ | ⟨_, _, k', _, _, he⟩ |
-      ⟨_, _, hb, _⟩ | ⟨_, _, hb, _⟩
+      ⟨_, _, hb, _⟩
   · exact absurd hr hcls
   · exact ⟨_, he, rfl⟩
   · exact ⟨_, he, rfl⟩
-  · exact absurd hb hbad
   · exact absurd hb hbad
 
 /-- the keyword reported is the first offending one and it is indeed not a member name -/
 theorem c09_typo_reports (T : Table) (env : Env) (enabled flag : Bool) (t : TypeArg) (kw : Kwargs) (oid k : Nat)
     (h : factory T env enabled flag t kw oid = .error (.badArg k)) : k ∈ keys kw ∧ k ∉ T.memberNames t.resolve := by
   rcases factory_cases T env enabled flag t kw oid with ⟨_, he⟩ | ⟨_, he⟩ | ⟨_, _, k', hf, _, he⟩ |
-      ⟨_, _, _, _, he⟩ | ⟨_, _, _, hres⟩
+      ⟨_, _, _, hres⟩
   · rw [he] at h; cases h
   · rw [he] at h; cases h
   · rw [he] at h
@@ -74,7 +72,6 @@ theorem c09_typo_reports (T : Table) (env : Env) (enabled flag : Bool) (t : Type
     refine ⟨List.mem_of_find?_eq_some hf, ?_⟩
     have := List.find?_some hf
     simpa using this
-  · rw [he] at h; cases h
   · rw [hres] at h
     split at h
     · split at h <;> cases h
@@ -82,8 +79,9 @@ theorem c09_typo_reports (T : Table) (env : Env) (enabled flag : Bool) (t : Type
 
 /-- **the hazard `_check_arg_list` exists for**: the generated constructor ignores keywords that are not member
     names — the object built from the full keyword list is the object built from the member keywords alone -/
-theorem c09_ctor_swallows (T : Table) (cls : Nat) (kw : Kwargs) (oid : Nat) :
-    construct T cls kw oid = construct T cls (kw.filter (fun p => (T.memberNames cls).contains p.1)) oid := by
+theorem c09_ctor_swallows (T : Table) (env : Env) (cls : Nat) (kw : Kwargs) (oid : Nat) :
+    construct T env cls kw oid =
+      construct T env cls (kw.filter (fun p => (T.memberNames cls).contains p.1)) oid := by
   unfold construct
   congr 1
   apply List.map_congr_left
@@ -101,7 +99,7 @@ theorem c09_off (T : Table) (env : Env) (enabled flag : Bool) (t : TypeArg) (kw 
     (hkeys : ∀ k ∈ keys kw, k ∈ T.memberNames t.resolve) (hctor : env.ctorFails t.resolve kw = false) :
     factory T env enabled flag t kw oid = .ok (built T env t.resolve kw oid) := by
   rcases factory_cases T env enabled flag t kw oid with ⟨hr, _⟩ | ⟨hc, _⟩ | ⟨_, _, k, hf, _, _⟩ |
-      ⟨_, _, _, hg, _⟩ | ⟨_, _, _, hres⟩
+      ⟨_, _, _, hres⟩
   · exact absurd hr hcls
   · rw [hctor] at hc; cases hc
   · exfalso
@@ -111,7 +109,6 @@ theorem c09_off (T : Table) (env : Env) (enabled flag : Bool) (t : TypeArg) (kw 
     have := hkeys k h1
     simp only [Bool.not_eq_true', List.contains_eq_mem, decide_eq_false_iff_not] at h2
     exact h2 this
-  · rw [hoff] at hg; cases hg
   · rw [hres, hoff]; rfl
 
 /-- … in particular an INVALID component is handed back when validation is off -/
@@ -123,7 +120,7 @@ theorem c09_off_returns_invalid (T : Table) (env : Env) (enabled flag : Bool) (t
     factory T env true true t kw oid = .error .invalid := by
   refine ⟨⟨_, c09_off T env enabled flag t kw oid hoff hcls hkeys hctor, hinv⟩, ?_⟩
   rcases factory_cases T env true true t kw oid with ⟨hr, _⟩ | ⟨hc, _⟩ | ⟨_, _, k, hf, _, _⟩ |
-      ⟨_, _, _, _, he⟩ | ⟨_, _, _, hres⟩
+      ⟨_, _, _, hres⟩
   · exact absurd hr hcls
   · rw [hctor] at hc; cases hc
   · exfalso
@@ -132,7 +129,6 @@ theorem c09_off_returns_invalid (T : Table) (env : Env) (enabled flag : Bool) (t
     have h2 := List.find?_some hf
     simp only [Bool.not_eq_true', List.contains_eq_mem, decide_eq_false_iff_not] at h2
     exact h2 (hkeys k h1)
-  · exact he
   · rw [hres]; simp [hinv]
 
 /-- **The global switch overrides the per-call flag**: with the switch off, `validate=True` and `validate=False`
@@ -144,7 +140,7 @@ theorem c09_switch_overrides (T : Table) (env : Env) (flag : Bool) (t : TypeArg)
 /-- … and `validate=False` is the same call whatever the switch says: validation happens iff BOTH are on -/
 theorem c09_flag_off (T : Table) (env : Env) (enabled : Bool) (t : TypeArg) (kw : Kwargs) (oid : Nat) :
     factory T env enabled false t kw oid = factory T env false false t kw oid := by
-  simp only [factory, Bool.and_false, Bool.false_and]
+  simp only [factory, Bool.and_false]
 
 /-- **String and class form of the type argument agree** (both go through `getattr(module, name)`) -/
 theorem c09_forms_agree (T : Table) (env : Env) (enabled flag : Bool) (n : Nat) (kw : Kwargs) (oid : Nat) :
@@ -179,8 +175,8 @@ theorem c09_add_valid (T : Table) (env : Env) (strOk : Obj → Bool) (parent : O
   cases hf : factory T env true true t kw oid with
   | error e => rw [hf] at h; cases h
   | ok child =>
-    rw [hf] at h ⊢
-    simp only at h ⊢
+    simp only [hf] at h
+    simp only
     have hcv := c09_valid T env t kw oid child hf
     cases hr : (Add.add T env.valid strOk ⟨true, true⟩ parent child hint force).result with
     | error e => rw [hr] at h; cases h
@@ -197,12 +193,13 @@ theorem c09_add_valid (T : Table) (env : Env) (strOk : Obj → Bool) (parent : O
 theorem c09_add_off (T : Table) (env env' : Env) (strOk : Obj → Bool) (enabled flag : Bool) (parent : Obj)
     (t : TypeArg) (kw : Kwargs) (hint : Option Nat) (force : Bool) (oid : Nat)
     (hoff : (enabled && flag) = false)
-    (hsame : env'.ctorFails = env.ctorFails ∧ env'.cellCls = env.cellCls ∧ env'.setupCell = env.setupCell) :
+    (hsame : env'.ctorFails = env.ctorFails ∧ env'.cellCls = env.cellCls ∧ env'.setupCell = env.setupCell ∧
+      env'.ctorValue = env.ctorValue) :
     addByType T env strOk enabled flag parent t kw hint force oid =
       addByType T env' strOk enabled flag parent t kw hint force oid := by
-  obtain ⟨h1, h2, h3⟩ := hsame
+  obtain ⟨h1, h2, h3, h4⟩ := hsame
   have hfac : factory T env enabled flag t kw oid = factory T env' enabled flag t kw oid := by
-    simp only [factory, built, hoff, h1, h2, h3]
+    simp only [factory, built, construct, hoff, h1, h2, h3, h4]
     rfl
   unfold addByType
   rw [← hfac]
@@ -244,7 +241,6 @@ theorem c09_session (T : Table) (env : Env) : ∀ (pre : List Cmd) (s : Bool) (f
     have ih := c09_session T env cs s f t kw oid
     simp only [List.cons_append, session, stepSwitch, switchAfter, List.foldl_cons] at ih ⊢
     rw [ih]
-    simp
 
 /-- **Disable, then enable, restores checking**: whatever happened before and in between (including further
     toggles and factory calls), once `enable` was the last toggle a `validate=True` call is checked again:
@@ -285,9 +281,12 @@ namespace Ex
 
 def T0 : Table := [⟨0, none, [⟨10, 50, false, false⟩, ⟨11, 51, false, true⟩, ⟨12, 1, true, true⟩]⟩, ⟨1, some 0, [⟨13, 50, false, true⟩]⟩]
 /-- valid iff the required member 10 is set to a truthy value -/
-def env0 : Env := ⟨fun o => match o.get 10 with | some v => v.truthy | none => false,
-                   fun _ kw => (lookup kw 11).isSome && lookup kw 11 == some (.atom "str:'x'" true), 99, id⟩
-instance : BEq Val := ⟨pyEq true⟩
+def env0 : Env where
+  valid := fun o => match o.get 10 with | some v => v.truthy | none => false
+  ctorFails := fun _ kw => (lookup kw 11).isSome
+  ctorValue := fun _ _ v => match v with | some x => x | none => .none
+  cellCls := 99
+  setupCell := id
 def good : Kwargs := [(10, .atom "str:'a'" true), (13, .atom "str:'b'" true)]
 def typo : Kwargs := [(10, .atom "str:'a'" true), (77, .atom "str:'b'" true)]
 def incomplete : Kwargs := [(13, .atom "str:'b'" true)]
@@ -295,19 +294,19 @@ def incomplete : Kwargs := [(13, .atom "str:'b'" true)]
 example : T0.row? (TypeArg.byName 1).resolve ≠ none := by decide
 -- c09_valid / c09_valid_or_raises: a valid one comes back, an invalid one raises
 example : (factory T0 env0 true true (.byName 1) good 5).toOption.isSome = true := by decide
-example : factory T0 env0 true true (.byName 1) incomplete 5 = .error .invalid := by decide
+example : factory T0 env0 true true (.byName 1) incomplete 5 = .error .invalid := rfl
 -- c09_typo: 77 is a keyword, not a member name (class 1 has members 13, 10, 11, 12)
 example : (77 : Nat) ∈ keys typo ∧ (77 : Nat) ∉ T0.memberNames 1 := by decide
-example : factory T0 env0 false false (.byClass 1) typo 5 = .error (.badArg 77) := by decide
+example : factory T0 env0 false false (.byClass 1) typo 5 = .error (.badArg 77) := rfl
 -- c09_off / c09_off_returns_invalid: validation off hands back the invalid component
 example : (∀ k ∈ keys incomplete, k ∈ T0.memberNames 1) ∧ env0.ctorFails 1 incomplete = false ∧
     env0.valid (built T0 env0 1 incomplete 5) = false := by decide
 -- c09_add_valid: a result exists
-example : ((addByType T0 env0 (fun _ => true) true true (construct T0 0 [(10, .atom "str:'p'" true)] 1) (.byName 0)
-    [(10, .atom "str:'c'" true)] none false 2).result.toOption.isSome) = true := by decide
+example : ((addByType T0 env0 (fun _ => true) true true (construct T0 env0 0 [(10, .atom "str:'p'" true)] 1) (.byName 1)
+    good none false 2).result.toOption.isSome) = true := by decide
 -- constructor cast failure
-example : factory T0 env0 true true (.byName 0) [(11, .atom "str:'x'" true)] 5 = .error .ctorValueError := by decide
-example : factory T0 env0 true true (.byName 7) [] 5 = .error .attrError := by decide
+example : factory T0 env0 true true (.byName 0) [(11, .atom "str:'x'" true)] 5 = .error .ctorValueError := rfl
+example : factory T0 env0 true true (.byName 7) [] 5 = .error .attrError := rfl
 
 end Ex
 
